@@ -80,7 +80,7 @@ def replay_chunk(args):
         keep = False
         try:
             rnd = random.Random(f"{seed}-{si}-{len(sc['files'])}")
-            m = scen.Mat(sc, base, seed=rnd.random())
+            m = scen.Mat(sc, base, dotted=True, seed=rnd.random())
             tags = scen.features(sc)
             if do_gcc and si % do_gcc == 0:
                 for i in range(len(sc["ents"])):
